@@ -2,6 +2,7 @@ import Woodpile.Driver.Util
 import Woodpile.Driver.ReadN
 import Woodpile.Model.IovecOps
 import Woodpile.Model.IovecApi
+import Woodpile.Model.IovecApi2
 import Woodpile.Gen.Consts
 
 /-
@@ -281,6 +282,15 @@ def stepApi (s : St) (ws : List String) : Option (St × List String) :=
     match handle 'a' x, handle 'v' x with
     | some j, _ => if (w.arena j).isSome then some (runApi s [.newArena] [] none) else bad
     | none, some i => if (w.iov i).isSome then some (runApi s [.newArena] [] (some i)) else bad
+    | _, _ => bad
+  -- track apileft (`Model/IovecApi2.lean`; `Props/C05B`): values safe code gets from `Default` only
+  | ["a_default"] => some (runApi s [.newArena] [] none)                    -- `ByteArena::default()`
+  | ["push_anchor_default", v, n] =>                                        -- `push_anchor(Default::default())`
+    match handle 'v' v, n.toNat? with
+    | some i, some n =>
+      match w.pushAnchorDefault i n with
+      | some w' => some (ok s w' [] (some i))
+      | none => bad
     | _, _ => bad
   | [op, hexes] =>
     if op = "from_iter" || op = "from_iter_ref" then
